@@ -283,7 +283,9 @@ pub fn mutate_for_diag(lines: &mut Vec<String>, r: &mut Rng) -> &'static str {
         0 => { lines.insert(0, format!("REMARK   1 {}", "X".repeat(75))); "remark-too-long" }
         12 => {
             // REMARK lines around the 80-column limit, alone, in a run (merged into one context) or apart
-            let mk = |r: &mut Rng| format!("REMARK   1 {}{}", "X".repeat(*r.pick(&[67usize, 68, 69, 70, 75])), if r.chance(1, 4) { "   " } else { "" });
+            // ... also with a two-byte character inside (80 bytes need not be 80 characters) and with a character remark
+            // texts refuse (a tab): the length check and the text check are separate
+            let mk = |r: &mut Rng| { let n = *r.pick(&[66usize, 67, 68, 69, 70, 75]); let odd = r.below(6); format!("REMARK   1 {}{}{}", if odd == 0 { "\u{c5}" } else if odd == 1 { "\t" } else { "" }, "X".repeat(n), if r.chance(1, 4) { "   " } else { "" }) };
             let n = 1 + r.below(3);
             let at = r.below(lines.len() + 1);
             for k in 0..n { let l = mk(r); lines.insert(at + k, l); }
